@@ -171,6 +171,25 @@ def check_push_outcome(res, ws, root, rr, first, goal_count, cfg_sig, argv, chec
         res.viol(dict(cfg_sig, **{"class": "applied-patches"}), "applied-patches %r, expected %r; stderr: %s" % (got_applied, want_applied, rr.err.decode("utf-8", "replace")[-500:]), root + ".orig", argv,
                  extra={"workspace": ws.describe()})
         return None
+    # the bytes of applied-patches: what was there before the run (the pristine copy next to the workspace), made a complete
+    # line if it was not, followed by one line per name this run recorded - no blank lines, nothing else
+    def _ap(d):
+        try:
+            with open(os.path.join(d, ".pc", "applied-patches"), "rb") as f:
+                return f.read()
+        except OSError:
+            return None
+    prior = _ap(root + ".orig") if os.path.isdir(root + ".orig") else None
+    now = _ap(root)
+    if os.path.isdir(root + ".orig") and now is not None:
+        pb = prior or b""
+        n_prior = len([l for l in pb.split(b"\n") if l])
+        added = [n.encode("utf-8", "surrogateescape") for n in want_applied[n_prior:]]
+        expect = pb + (b"\n" if (pb and not pb.endswith(b"\n") and added) else b"") + b"".join(n + b"\n" for n in added)
+        if now != expect and n_prior <= len(want_applied):
+            res.viol(dict(cfg_sig, **{"class": "applied-patches", "what": "bytes"}), "applied-patches holds %r, expected %r (before the run: %r)" % (now[-200:], expect[-200:], pb[-100:]), root + ".orig", argv,
+                     extra={"workspace": ws.describe()})
+            return None
     diffs = runner.tree_diff(obs["tree"], obs["dirs"], exp_tree, check_dirs=check_rej_dirs, rej_paths=list(obs["rej"]) + [d + "/." for d in getattr(ws, "extra_dirs", ())])
     if diffs:
         cls, path, detail = diffs[0]
